@@ -512,7 +512,8 @@ def run(run):
             "multistart_grammars": 0, "recstart_grammars": 0, "solver_mode": 0, "parse_on_mode": 0,
             "list_grammars": 0, "corpus_grammars": 0, "trees_checked_yield": 0,
             "solver_nt_skipped_cyclic_after_override": 0, "fuel_capped_grammars": 0,
-            "theorem_guard_evaluated": 0, "theorem_guard_false_cyclic_or_capped": 0}
+            "theorem_guard_evaluated": 0, "theorem_guard_false_cyclic_or_capped": 0,
+            "words_skipped_ambiguity_cap": 0}
     state = {"maxlen_seen": 0, "coq_seconds": 0.0, "batches": 0, "max_shard_bytes": 0}
     prop_failures = []
     disagreements, spec_fail_coq, forest_fail, guard_fail, guard_unexplained = [], [], [], [], []
@@ -548,7 +549,7 @@ def run(run):
         Ng = opts["maxlen"]
         if thorough:
             # bounded volume per grammar: ALL strings while their cumulative number stays <= 400 (3 letters: length <= 5,
-            # 2 letters: <= 7), then a random subset of 250 strings of the next length (<= 7)
+            # 2 letters: <= 7), then a random subset of 100 strings of the next length (<= 7)
             words, n, tot = [""], 0, 1
             while n < 7 and alpha and tot + len(alpha) ** (n + 1) <= 400:
                 n += 1
@@ -556,7 +557,7 @@ def run(run):
                 tot += len(alpha) ** n
             if alpha and n < 7:
                 pool = ["".join(p) for p in itertools.product(alpha, repeat=n + 1)]
-                words += sorted(rng.sample(pool, min(250, len(pool))))
+                words += sorted(rng.sample(pool, min(100, len(pool))))
             Ng = max(Ng, n)
         elif opts.get("list") and len(alpha) == 3:
             # all strings up to length 5 over the two most important letters (separator first ... the
@@ -597,8 +598,18 @@ def run(run):
                 hist["solver_nt_skipped_cyclic_after_override"] += 1
         cases = []     # (mode, nt, w, outcome)
         tabs = {}      # w -> membership table of cg (python reference), shared by the cases of this grammar
-        for w in words:
-            cases.append((0, START, w, impl_parse(g, w)))
+        # thorough tier: the model enumerates ALL trees of an input before taking the first 8; for highly
+        # ambiguous grammars their number explodes with the length.  Words are taken by increasing length and
+        # once an input reaches the cap of 8 trees, inputs more than one character longer are dropped (counted).
+        amb_len = None
+        for w in (sorted(words, key=len) if thorough else words):
+            if amb_len is not None and len(w) > amb_len + 1:
+                hist["words_skipped_ambiguity_cap"] += 1
+                continue
+            o0 = impl_parse(g, w)
+            if thorough and amb_len is None and o0[0] == "ok" and len(o0[1]) >= MAXTREES:
+                amb_len = len(w)
+            cases.append((0, START, w, o0))
             if len(w) <= (3 if thorough else 2):
                 for nt in list(g)[1:]:
                     cases.append((1, nt, w, impl_parse(g, w, nt)))
@@ -632,7 +643,7 @@ def run(run):
                 prop_failures.append({"grammar": g, "mode": mode, "nonterminal": nt, "input": w,
                                       "impl": [o[0], [jt(t) for t in o[1]] if o[0] == "ok" else o[1]],
                                       "why": why, "_cg": cg, "_o": o})
-        n_max = max(len(w) for w in words)
+        n_max = max(len(c[2]) for c in cases)
         hist["fuel_capped_grammars"] += fuel_uncapped(cg, n_max) > FUEL_CAP
         gc_ = {}
         for ci, (mode, nt, w, o) in enumerate(cases):
@@ -664,7 +675,13 @@ def run(run):
             for li, mi in enumerate(members):
                 m = metas[mi]
                 for ci, (mode, nt, w, o) in enumerate(m["cases"]):
-                    kinds = [0, 1] + ([2] if mode == 0 and len(w) <= 2 else []) + ([3] if mode == 0 else [])
+                    if thorough:
+                        # volume: the Coq-side tree oracle (kind 1) and the forest hypothesis (kind 3) only say
+                        # something for outcomes other than SyntaxError / for accepted inputs
+                        kinds = [0] + ([1] if o != ("raise", "SyntaxErr") else []) \
+                            + ([2] if mode == 0 and len(w) <= 2 else []) + ([3] if mode == 0 and o[0] == "ok" else [])
+                    else:
+                        kinds = [0, 1] + ([2] if mode == 0 and len(w) <= 2 else []) + ([3] if mode == 0 else [])
                     # kind 4: the hypotheses of C10_parse_complete / C10_parse_total that depend on the case
                     # (acyclicb, fuel_bound <= FUEL) evaluated in Coq on the longest input of every
                     # (entry point, nonterminal) of the grammar
